@@ -117,7 +117,7 @@ pub fn plan_transport(rng: &mut Rng, plan: &mut Plan, sim_only: bool) {
     if t == T_FROM_PATH && rng.chance(1, 2) {
         // what the file is called and what lies next to it: other extensions, no extension, the osu! naming convention
         // inside a beatmap folder with a storyboard and another difficulty as neighbours
-        plan.set("fname", 1 + rng.below(7) as i64);
+        plan.set("fname", 1 + rng.below(8) as i64);
     }
     if t == T_FROM_PATH && rng.chance(1, 4) {
         plan.set("locked", 1 + rng.below(2) as i64);
@@ -307,6 +307,7 @@ fn decode_via_inner(plan: &Plan, dec: Dec, st: &mut Stats) -> Via {
     match t {
         T_SIM => {
             let mut r = SimReader::new(data, &plan.sched, tail, &plan.eintr, fault).record_boundaries();
+            r.eintr_sleep_ms = plan.get("eintr_sleep_ms").clamp(0, 50) as u64;
             let (out, inj) = conv(decode_fp(dec, &mut r));
             note_read_stats(st, data, &r.st);
             Via { out, rs: Some(r.st), err_is_injected: inj }
@@ -341,6 +342,13 @@ fn decode_via_inner(plan: &Plan, dec: Dec, st: &mut Stats) -> Via {
                 3 => dir.join(format!("{stem}.txt")),
                 4 => dir.join(stem.replace(['(', ')'], "")),
                 5 => dir.join(format!("{stem} [x].osu")),
+                8 => {
+                    // a name that is not valid UTF-8 (a legacy code page): still a path
+                    use std::os::unix::ffi::OsStrExt as _;
+                    let mut b = stem.clone().into_bytes();
+                    b.extend_from_slice(b"-\x83\x65\x83\x58\x83\x67\xff.osu");
+                    dir.join(std::ffi::OsStr::from_bytes(&b))
+                }
                 6 | 7 => {
                     // a beatmap folder: "<Artist> - <Title> (<Creator>) [<Version>].osu" next to "<Artist> - <Title>
                     // (<Creator>).osb" (a storyboard with its own background and break), another difficulty and an audio file
